@@ -10,10 +10,13 @@ detach semantics.
    Context / RuntimeContext / Token / Scope / Tracer::GetCurrentSpan by harness/c10_context.cc on
    lock-stepped OS threads; after EVERY step every thread's GetCurrent() identity and active span
    and GetValue/HasKey of every key on EVERY context created so far are compared with what the spec
-   computed.
+   computed.  Token objects and context handles are really destroyed when the spec says so, and every
+   behaviour is replayed in TWO build flavours: ASan+UBSan (a freed address is never handed out again)
+   and plain (freed memory is reused at once: LIFO free lists inside the API calls, and plain glibc).
 3. code -> spec: several OS threads run independent seeded random programs concurrently (up to 200
-   operations each, stacks far beyond the reallocation steps); spec/ContextTrace.tla decides whether
-   the merged log is a behaviour of the spec.
+   operations each, stacks far beyond the reallocation steps; tokens kept after Detach, destroyed at
+   any time, contexts dropped under them and new ones created right away), half of the executions in
+   each flavour; spec/ContextTrace.tla decides whether the merged log is a behaviour of the spec.
 Every expectation comes out of TLC; Python only shuttles JSON and picks concretisations.
 """
 import concurrent.futures as cf
@@ -29,19 +32,21 @@ from lib.common import Broken, log
 LEVEL = "model_checking"
 
 CFG = """CONSTANTS NT = %(NT)d  NK = %(NK)d  NV = %(NV)d  NS = %(NS)d  MaxCtx = %(MaxCtx)d  MaxSet = %(MaxSet)d
-          MaxDepth = %(MaxDepth)d  MaxMap = %(MaxMap)d  MaxDrop = %(MaxDrop)d  WithEmpty = %(WithEmpty)s  GenDepth = %(GenDepth)d  DeepTarget = %(DeepTarget)d
+          MaxDepth = %(MaxDepth)d  MaxMap = %(MaxMap)d  MaxDrop = %(MaxDrop)d  MaxTok = %(MaxTok)d  SampleToks = %(SampleToks)d  WithEmpty = %(WithEmpty)s  GenDepth = %(GenDepth)d  DeepTarget = %(DeepTarget)d
           Hist = %(Hist)s  KeepFlags = FALSE  Dev = {}
 INIT Init
 NEXT Next
 %(extra)s
 """
 MC_TAIL = ("VIEW View\nINVARIANTS TypeOK MostRecentBinding Shadowing StackFrames\n"
-           "PROPERTIES Immutable AttachMakesCurrent DetachRestores ForeignTokenNoOp ScopeActivates ThreadsIsolated")
-ACTIONS = ["DoSetValue", "DoSetValues", "DoAttach", "DoDetach", "DoScopeEnter", "DoScopeExit", "DoDrop"]
+           "PROPERTIES Immutable AttachMakesCurrent DetachRestores ForeignTokenNoOp TokenLifetime ScopeActivates ThreadsIsolated")
+ACTIONS = ["DoSetValue", "DoSetValues", "DoAttach", "DoDetach", "DoTokenDtor", "DoScopeEnter", "DoScopeExit", "DoDrop"]
 
 
-def K(NT, NK, NV, NS, MaxCtx, MaxSet, MaxDepth, MaxMap, GenDepth=0, DeepTarget=99, Hist=False, MaxDrop=0, Empty=False):
+def K(NT, NK, NV, NS, MaxCtx, MaxSet, MaxDepth, MaxMap, GenDepth=0, DeepTarget=99, Hist=False, MaxDrop=0, Empty=False, MaxTok=None, SampleToks=0):
+    # MaxTok: token objects alive at the same time (default: every attached frame can keep its token + 1 stale one)
     return dict(NT=NT, NK=NK, NV=NV, NS=NS, MaxCtx=MaxCtx, MaxSet=MaxSet, MaxDepth=MaxDepth, MaxMap=MaxMap, MaxDrop=MaxDrop,
+                MaxTok=(NT * MaxDepth + 1) if MaxTok is None else MaxTok, SampleToks=SampleToks,
                 WithEmpty="TRUE" if Empty else "FALSE",
                 GenDepth=GenDepth, DeepTarget=DeepTarget, Hist="TRUE" if Hist else "FALSE")
 
@@ -59,10 +64,11 @@ _RE_COV = re.compile(r"^<(\w+) line \d+, col \d+ to line \d+, col \d+ of module 
 
 
 def _coverage(out):
-    """action -> distinct states found through it (also the `(l c l c)` form TLC prints for some \\E disjuncts)"""
+    """action -> successor states generated through it (the first number TLC prints counts only NEW distinct states: a
+    token destructor always leads to a state that is also reachable without that token)"""
     cov = {}
     for m in _RE_COV.finditer(out):
-        cov[m.group(1)] = cov.get(m.group(1), 0) + int(m.group(2))
+        cov[m.group(1)] = cov.get(m.group(1), 0) + int(m.group(3))
     return cov
 
 
@@ -75,19 +81,24 @@ def _par(jobs, n):
 # ------------------------------------------------------------------------------------------ 1. TLC
 def mc_jobs(ctx):
     thorough = ctx.tier == "thorough"
-    # (NT, NK, NV, NS, MaxCtx, MaxSet, MaxDepth, MaxMap); measured distinct states in design_notes/C10.md
-    cfgs = [("values", K(1, 2, 1, 1, 3, 2, 1, 2, MaxDrop=3)),   # family of contexts, shadowing, immutability, every drop order
+    # (NT, NK, NV, NS, MaxCtx, MaxSet, MaxDepth, MaxMap); measured distinct states in design_notes/C10.md.  Token objects
+    # (kept after Detach, destroyed at any time) multiply every configuration by the bag of live tokens: MaxTok is explicit.
+    cfgs = [("values", K(1, 2, 1, 1, 3, 2, 1, 2, MaxDrop=3, MaxTok=1)),   # family of contexts, shadowing, immutability, every drop order
             ("clear", K(1, 2, 1, 0, 3, 3, 0, 2, Empty=True)),    # keys re-bound to the empty ContextValue: consistent shadowing
-            ("deep", K(1, 1, 1, 1, 2, 1, 7, 1)),                 # every detach order, depth <= 7, one thread
-            ("threads", K(2, 1, 1, 1, 2, 1, 3, 1))]              # two threads interleaved
+            ("deep", K(1, 1, 1, 1, 1, 1, 7, 1, MaxTok=8)),       # every detach / token-destruction order, depth <= 7, one thread
+            ("deep3", K(1, 1, 1, 1, 2, 1, 4, 1, MaxTok=5)),      # ... three contexts (scope contexts too), depth <= 4
+            # token lifetime against context lifetime: stale tokens, contexts dropped under them, contexts created afterwards
+            ("tokens", K(1, 1, 1, 1, 2, 2, 2, 1, MaxDrop=2, MaxTok=3)),
+            ("threads", K(2, 1, 1, 1, 1, 1, 3, 1, MaxTok=4))]    # two threads interleaved (tokens destroyed by the other thread)
     if thorough:
-        cfgs += [("values2", K(1, 2, 1, 1, 3, 3, 2, 2, MaxDrop=2)), ("deep2", K(1, 1, 1, 1, 2, 2, 7, 1, MaxDrop=1)),
-                 ("threads2", K(2, 1, 1, 1, 2, 2, 4, 1)), ("threads3", K(3, 1, 1, 1, 1, 1, 3, 1, MaxDrop=1))]
+        cfgs += [("values2", K(1, 2, 1, 1, 3, 3, 1, 2, MaxDrop=2, MaxTok=1)), ("deep2", K(1, 1, 1, 1, 2, 2, 5, 1, MaxDrop=1, MaxTok=5)),
+                 ("tokens2", K(1, 1, 1, 1, 3, 2, 2, 1, MaxDrop=2, MaxTok=2)),
+                 ("threads2", K(2, 1, 1, 1, 2, 1, 2, 1, MaxTok=3)), ("threads3", K(3, 1, 1, 1, 1, 1, 2, 1, MaxDrop=1, MaxTok=3))]
 
     def one(name, k):
         c = _cfg(ctx, "mc-" + name, k, MC_TAIL)
         return name, tlc.tlc("Context", c, rundir=ctx.rundir.path, workers=4, timeout_s=1100 if thorough else 150,
-                             coverage=(name in ("values", "threads")), xmx="6g", tag="mc-" + name)
+                             coverage=(name in ("values", "tokens")), xmx="6g", tag="mc-" + name)
     return [(one, n, k) for n, k in cfgs]
 
 
@@ -99,10 +110,10 @@ def mc_collect(ctx, results):
             continue
         tlc.must_ok(r, "Context.tla model checking (%s): the ideal spec must satisfy the property" % name)
         cov = _coverage(r.out)
-        if cov and name == "values":
+        if name in ("values", "tokens"):
             for a in ACTIONS:
                 # (TLC names a singleton \E-instantiation after the inner action: DoDrop / DropContext / Drop..)
-                if cov.get(a, 0) + cov.get(a[2:], 0) + cov.get(a[2:] + "Context", 0) == 0:
+                if cov.get(a, 0) + cov.get(a[2:], 0) + cov.get(a[2:] + "Context", 0) + cov.get("Destroy" + a[2:-4], 0) == 0:
                     raise Broken("vacuity: action %s never taken in MC config %s" % (a, name))
 
 
@@ -124,6 +135,12 @@ WITNESSES = {
     # a key re-bound to the EMPTY ContextValue hides the older binding for GetValue AND HasKey (also the active-span key)
     "WitClearKey": K(1, 2, 1, 1, 3, 3, 1, 1, Empty=True), "WitClearKeyMap": K(1, 2, 1, 1, 3, 3, 1, 2, Empty=True),
     "WitClearSpanKey": K(1, 1, 1, 1, 3, 2, 2, 1, Empty=True),
+    # a token object destroyed by ANOTHER thread than the one that attached it (its destructor detaches on the destroying
+    # thread: a foreign token there).  Token objects that outlive their context (stale token + context freed + new context
+    # created and attached + stale token detached / destroyed) come from the `stale` generation run: EVERY such abstract state
+    # of a small domain (WitStaleDetach / WitStaleDtor / WitStalePop / WitStaleScope exist in the spec for single runs);
+    # a token destroyed while attached / a context dropped under a live token are in the all-behaviours-to-depth-4 run.
+    "WitDtorX": K(2, 1, 1, 1, 1, 1, 2, 1),
 }
 # witnesses found by random walks under an action constraint: name -> (constraint, DeepTarget, GenDepth)
 DEEP_WITNESSES = {"WitOooDeep": ("DeepFirst", 16, 90), "WitOooDeep2": ("DeepFirst", 33, 90),
@@ -141,7 +158,7 @@ def gen_jobs(ctx):
 
     def deepwit(name):
         cons, target, depth = DEEP_WITNESSES[name]
-        k = K(1, 2, 1, 1, 8, 4, 40, 1, GenDepth=depth, DeepTarget=target, Hist=True, MaxDrop=2)
+        k = K(1, 2, 1, 1, 8, 4, 40, 1, GenDepth=depth, DeepTarget=target, Hist=True, MaxDrop=2, SampleToks=4)
         c = _cfg(ctx, "w-" + name, k, "VIEW View\nCONSTRAINT Bound\nACTION_CONSTRAINT %s\nINVARIANTS %s" % (cons, name))
         return name, k, tlc.tlc("Context", c, rundir=ctx.rundir.path, workers=2, timeout_s=150, tag="w-" + name,
                                 simulate={"num": 100000, "depth": depth + 10}, seed=ctx.seed + 3, xmx="2g")
@@ -151,6 +168,14 @@ def gen_jobs(ctx):
         c = _cfg(ctx, "g-all", k, "CONSTRAINT Bound\nACTION_CONSTRAINT Closing\nINVARIANTS EmitAll")
         return "all", k, tlc.tlc("Context", c, rundir=ctx.rundir.path, workers=4, timeout_s=150, tag="g-all", xmx="6g")
 
+    def allstale():
+        # every abstract state of a small domain in which a STALE token / scope is detached or destroyed (its context is
+        # unreferenced, a context created afterwards is current), each with a shortest behaviour leading to it
+        k = (K(1, 1, 1, 1, 2, 2, 3, 1, GenDepth=40, Hist=True, MaxDrop=2, MaxTok=3) if thorough else
+             K(1, 1, 1, 1, 2, 2, 2, 1, GenDepth=40, Hist=True, MaxDrop=1, MaxTok=2))
+        c = _cfg(ctx, "g-stale", k, "VIEW StaleView\nCONSTRAINT Bound\nACTION_CONSTRAINT StopAtStale\nINVARIANTS EmitStale")
+        return "stale", k, tlc.tlc("Context", c, rundir=ctx.rundir.path, workers=1, timeout_s=300, tag="g-stale", xmx="4g")
+
     def sim(i, k, num, cons):
         c = _cfg(ctx, "g-sim%d" % i, k, "VIEW View\nCONSTRAINT Bound\nACTION_CONSTRAINT Closing%s\nINVARIANTS EmitAll" % (
             " " + cons if cons else ""))
@@ -158,15 +183,15 @@ def gen_jobs(ctx):
                                        simulate={"num": num, "depth": k["GenDepth"] + 20}, seed=ctx.seed * 31 + i, xmx="6g")
 
     n = 60 if thorough else 10          # per worker (4 workers)
-    sims = [(0, K(2, 3, 2, 2, 14, 8, 40, 2, GenDepth=80, DeepTarget=16, Hist=True, MaxDrop=4, Empty=True), n, "DeepFirst"),
-            (1, K(3, 4, 3, 2, 12, 8, 40, 2, GenDepth=60, DeepTarget=16, Hist=True, MaxDrop=6, Empty=True), n, ""),
-            (2, K(1, 3, 2, 2, 16, 8, 70, 2, GenDepth=120, DeepTarget=34, Hist=True, MaxDrop=4), n // 2, "DeepFirst"),
+    sims = [(0, K(2, 3, 2, 2, 14, 8, 40, 2, GenDepth=80, DeepTarget=16, Hist=True, MaxDrop=4, Empty=True, SampleToks=4), n, "DeepFirst"),
+            (1, K(3, 4, 3, 2, 12, 8, 40, 2, GenDepth=60, DeepTarget=16, Hist=True, MaxDrop=6, Empty=True, SampleToks=4), n, ""),
+            (2, K(1, 3, 2, 2, 16, 8, 70, 2, GenDepth=120, DeepTarget=34, Hist=True, MaxDrop=4, SampleToks=4), n // 2, "DeepFirst"),
             # grow beyond 16 / 32, unwind to <= 3, grow again, then anything (shrink-after-growth)
-            (3, K(1, 2, 2, 2, 12, 6, 40, 2, GenDepth=130, DeepTarget=17, Hist=True, MaxDrop=3, Empty=True), n, "DeepCycle"),
-            (4, K(2, 2, 1, 2, 10, 4, 70, 2, GenDepth=200, DeepTarget=33, Hist=True, MaxDrop=2), n // 2, "DeepCycle")]
+            (3, K(1, 2, 2, 2, 12, 6, 40, 2, GenDepth=130, DeepTarget=17, Hist=True, MaxDrop=3, Empty=True, SampleToks=4), n, "DeepCycle"),
+            (4, K(2, 2, 1, 2, 10, 4, 70, 2, GenDepth=200, DeepTarget=33, Hist=True, MaxDrop=2, SampleToks=4), n // 2, "DeepCycle")]
     if thorough:
-        sims.append((5, K(3, 2, 2, 3, 20, 6, 70, 2, GenDepth=150, DeepTarget=20, Hist=True, MaxDrop=6), n // 2, "DeepFirst"))
-    jobs = [(sim,) + s for s in sims] + [(allshort,)] + [(deepwit, nme) for nme in DEEP_WITNESSES]
+        sims.append((5, K(3, 2, 2, 3, 20, 6, 70, 2, GenDepth=150, DeepTarget=20, Hist=True, MaxDrop=6, SampleToks=4), n // 2, "DeepFirst"))
+    jobs = [(sim,) + s for s in sims] + [(allshort,), (allstale,)] + [(deepwit, nme) for nme in DEEP_WITNESSES]
     jobs += [(wit, nme, k) for nme, k in WITNESSES.items()]
     return jobs
 
@@ -187,6 +212,16 @@ def gen_collect(ctx, results):
                 raise Broken("behaviour generation %s failed: %s\n%s" % (name, r.status, r.out[-1500:]))
             if not b:
                 raise Broken("behaviour generation %s printed nothing (vacuity)" % name)
+        if name == "stale":
+            # vacuity: the family must end in a stale Detach, a stale ~Token and a stale ~Scope (the flag is set by the spec)
+            ends = {}
+            for steps in b:
+                if not steps[-1].get("stale"):
+                    raise Broken("stale-token generation printed a behaviour that does not end in a stale operation")
+                ends[steps[-1]["op"]] = ends.get(steps[-1]["op"], 0) + 1
+            if set(ends) != {"Detach", "TokenDtor", "ScopeExit"}:
+                raise Broken("vacuity: stale-token behaviours end only in %s" % ends)
+            ctx.extra["stale_token_behaviours"] = ends
         for steps in b:
             behs.append((name, k, steps))
     ctx.extra["witness_lengths"] = wit_len
@@ -205,14 +240,23 @@ def concretise(ctx, behs):
             continue
         seen.add(h)
         ctx.distinct.add(h)
-        inst = 1 if src == "all" else (4 if ctx.tier == "thorough" else 2)
+        inst = 1 if src in ("all", "stale") else (4 if ctx.tier == "thorough" else 2)
         for _ in range(inst):
             out.append({"id": len(out), "src": src, "nt": k["NT"], "nk": k["NK"], "kv": rnd.randrange(4),
                         "vv": rnd.randrange(4), "seed": rnd.randrange(1 << 30), "steps": steps})
     return out
 
 
-def run_replay(ctx, exe, insts, tag, watchdog_s=None):
+# replay modes: (build flavour, allocator inside the API calls).  ASan's quarantine never hands a freed address out again;
+# the plain flavour does at once - "lifo": the harness's LIFO free lists (deterministic, shared by all threads), "libc": glibc.
+MODES = [("asan", None), ("plain", "lifo"), ("plain", "libc")]
+
+
+def _mode(m):
+    return m[0] + ("/" + m[1] if m[1] else "")
+
+
+def run_replay(ctx, exe, insts, tag, watchdog_s=None, alloc=None):
     """-> ({id: result line}, [crash/hang records]).  The replayer prints one line per finished
     behaviour, so a process that dies (sanitizer report, signal) or whose watchdog fires (the real code
     hangs: line {"hang":true,"step":i}, exit 3) names the behaviour it happened in; the rest is resumed
@@ -221,14 +265,16 @@ def run_replay(ctx, exe, insts, tag, watchdog_s=None):
     crashes = []
     todo = list(insts)
     rounds = 0
-    env = {"C10_WATCHDOG_S": str(watchdog_s)} if watchdog_s else None
+    env = {"C10_WATCHDOG_S": str(watchdog_s)} if watchdog_s else {}
+    if alloc:
+        env["C10_ALLOC"] = alloc
     while todo:
         rounds += 1
         path = ctx.rundir.file("beh-%s-%d.ndjson" % (tag, rounds))
         with open(path, "w") as f:
             for b in todo:
                 f.write(json.dumps(b) + "\n")
-        r = hrun.run_harness(exe, ["replay", path], timeout=600, env=env)
+        r = hrun.run_harness(exe, ["replay", path], timeout=600, env=env or None)
         out = r.json()
         got = [g for g in out if "ok" in g]
         for g in got:
@@ -255,11 +301,11 @@ def run_replay(ctx, exe, insts, tag, watchdog_s=None):
     return res, crashes
 
 
-def confirm_hang(ctx, exe, c):
+def confirm_hang(ctx, exe, c, alloc=None):
     """A watchdog that fired on a loaded machine is not yet a hang: run that behaviour alone with a long
     watchdog.  -> True if it hangs again."""
     b = dict(c["behaviour"], id=0)
-    res, crashes = run_replay(ctx, exe, [b], "confirm%d" % c["behaviour"]["id"], watchdog_s=45)
+    res, crashes = run_replay(ctx, exe, [b], "confirm%d" % c["behaviour"]["id"], watchdog_s=45, alloc=alloc)
     if any(x["rc"] == "hang" for x in crashes):
         c["step"] = crashes[0]["step"] if crashes[0]["step"] is not None else c["step"]
         return True
@@ -274,66 +320,82 @@ def _first_error(err):
     return err.strip()[:300]
 
 
-def replay_all(ctx, exe, insts):
-    parts = [insts[i::4] for i in range(4)]
-    results = {}
-    crashes = []
-    for r, c in _par([(run_replay, ctx, exe, p, "p%d" % i) for i, p in enumerate(parts) if p], 4):
-        results.update(r)
-        crashes += c
+def replay_all(ctx, exes, insts):
+    """Every behaviour in every mode (flavour x allocator); the plain modes cost a fraction of the ASan one."""
+    jobs = []
+    for m in MODES:
+        n = 4 if m[0] == "asan" else 2
+        jobs += [(m, i, insts[i::n]) for i in range(n) if insts[i::n]]
+    by_mode = {m: ({}, []) for m in MODES}
+    for m, (r, c) in zip([j[0] for j in jobs],
+                         _par([(run_replay, ctx, exes[m[0]], p, "%s%s-p%d" % (m[0], m[1] or "", i), None, m[1]) for m, i, p in jobs], 6)):
+        by_mode[m][0].update(r)
+        by_mode[m][1].extend(c)
     by_id = {b["id"]: b for b in insts}
     nrep = 0
+    nbad = 0
     confirmed = False
-    for c in crashes:
-        bad = c["behaviour"]
-        # (one confirmed hang is enough: the others are then reported as the watchdog saw them)
-        if c["rc"] == "hang" and not confirmed:
-            if not confirm_hang(ctx, exe, c):
-                results[bad["id"]] = dict(c["retry"] or {"ok": True, "skipped": True}, beh=bad["id"])   # slow machine, not a hang
-                continue
-            confirmed = True
-        nrep += 1
-        if nrep > 3:
-            continue
-        if c["rc"] == "hang":
-            st = bad["steps"][c["step"]] if c["step"] is not None and 0 <= c["step"] < len(bad["steps"]) else {}
-            ctx.violation("real code HANGS while replaying a TLC behaviour (src=%s): step %s (%s t=%s c=%s) never returns" % (
-                bad["src"], c["step"], st.get("op"), st.get("t"), st.get("c")),
-                {"kind": "replay", "behaviour": dict(bad, steps=bad["steps"][:(c["step"] or len(bad["steps"]) - 1) + 1]), "hang_at": c["step"]})
-        else:
-            ctx.violation("real code crashed (rc=%s) while replaying a TLC behaviour (src=%s): %s" % (c["rc"], bad["src"], c["first"]),
-                          {"kind": "replay", "behaviour": bad, "stderr": c["stderr"]})
     ops = {}
     checks = 0
-    nbad = 0
-    for i, g in sorted(results.items()):
-        b = by_id[i]
-        checks += g.get("checks", 0)
-        for s in b["steps"]:
-            ops[s["op"]] = ops.get(s["op"], 0) + 1
-        if not g["ok"] and not g.get("crash"):
-            if str(g.get("what", "")).startswith("harness:"):
-                raise Broken("replay harness cannot follow a behaviour: %s" % g)
-            nbad += 1
-            if nbad <= 5:
-                st = b["steps"][g["step"]]
-                ctx.violation("replay of a TLC behaviour (src=%s) diverges at step %d (%s t=%s c=%s): %s: spec expects %s, real code gives %s" % (
-                    b["src"], g["step"], st["op"], st["t"], st["c"], g["what"], json.dumps(g["exp"]), json.dumps(g["got"])),
-                    {"kind": "replay", "behaviour": dict(b, steps=b["steps"][:g["step"] + 1]), "mismatch": g})
+    results = {}
+    for m in MODES:
+        results, crashes = by_mode[m]
+        for c in crashes:
+            bad = c["behaviour"]
+            # (one confirmed hang is enough: the others are then reported as the watchdog saw them)
+            if c["rc"] == "hang" and not confirmed:
+                if not confirm_hang(ctx, exes[m[0]], c, alloc=m[1]):
+                    results[bad["id"]] = dict(c["retry"] or {"ok": True, "skipped": True}, beh=bad["id"])   # slow machine, not a hang
+                    continue
+                confirmed = True
+            nrep += 1
+            if nrep > 3:
+                continue
+            if c["rc"] == "hang":
+                st = bad["steps"][c["step"]] if c["step"] is not None and 0 <= c["step"] < len(bad["steps"]) else {}
+                ctx.violation("real code HANGS while replaying a TLC behaviour (src=%s, %s build): step %s (%s t=%s c=%s) never returns" % (
+                    bad["src"], _mode(m), c["step"], st.get("op"), st.get("t"), st.get("c")),
+                    {"kind": "replay", "mode": list(m), "behaviour": dict(bad, steps=bad["steps"][:(c["step"] or len(bad["steps"]) - 1) + 1]),
+                     "hang_at": c["step"]})
+            else:
+                ctx.violation("real code crashed (rc=%s) while replaying a TLC behaviour (src=%s, %s build): %s" % (
+                    c["rc"], bad["src"], _mode(m), c["first"]),
+                    {"kind": "replay", "mode": list(m), "behaviour": bad, "stderr": c["stderr"]})
+        for i, g in sorted(results.items()):
+            b = by_id[i]
+            checks += g.get("checks", 0)
+            if m == MODES[0]:
+                for s in b["steps"]:
+                    ops[s["op"]] = ops.get(s["op"], 0) + 1
+            if not g["ok"] and not g.get("crash"):
+                if str(g.get("what", "")).startswith("harness:"):
+                    raise Broken("replay harness cannot follow a behaviour: %s" % g)
+                nbad += 1
+                if nbad <= 5:
+                    st = b["steps"][g["step"]]
+                    ctx.violation("replay of a TLC behaviour (src=%s, %s build) diverges at step %d (%s t=%s c=%s tk=%s): %s: spec expects %s, real code gives %s" % (
+                        b["src"], _mode(m), g["step"], st["op"], st["t"], st["c"], st.get("tk"), g["what"], json.dumps(g["exp"]), json.dumps(g["got"])),
+                        {"kind": "replay", "mode": list(m), "behaviour": dict(b, steps=b["steps"][:g["step"] + 1]), "mismatch": g})
+        if len(results) != len(insts):
+            raise Broken("replay (%s): %d results for %d behaviours" % (_mode(m), len(results), len(insts)))
+        ctx.extra["behaviours_replayed_" + _mode(m).replace("/", "_")] = len([g for g in results.values() if not g.get("skipped")])
+    results = by_mode[MODES[0]][0]
     if len(results) != len(insts):
         raise Broken("replay: %d results for %d behaviours" % (len(results), len(insts)))
     done = len([g for g in results.values() if not g.get("skipped")])
-    ctx.traces += done
-    ctx.evaluations += done
+    total = sum(len([g for g in by_mode[m][0].values() if not g.get("skipped")]) for m in MODES)
+    ctx.traces += total
+    ctx.evaluations += total
     ctx.extra["behaviours_replayed"] = done
+    ctx.extra["replays_all_modes"] = total
     ctx.extra["replay_comparisons"] = checks
     ctx.extra["replay_op_counts"] = ops
     ctx.extra["replay_max_steps"] = max(len(b["steps"]) for b in insts)
-    for src in ("WitOooDeep", "WitDupOoo", "sim0"):
+    for src in ("WitOooDeep", "WitStaleDtor", "sim0"):
         for b in insts:
             if b["src"] == src:
                 ctx.sample({"kind": "TLC behaviour replayed on the real API (src=%s, key table %d, value table %d)" % (
-                    src, b["kv"], b["vv"]), "steps": [{k: s[k] for k in ("op", "t", "c", "k", "v", "ok", "n", "cur", "span")}
+                    src, b["kv"], b["vv"]), "steps": [{k: s[k] for k in ("op", "t", "c", "tk", "k", "v", "ok", "n", "cur", "span")}
                                                       for s in b["steps"][-6:]]})
                 break
 
@@ -385,21 +447,29 @@ def run_replay_quiet(ctx, exe, insts):
 
 
 # --------------------------------------------------------------------------------- 3. code -> spec
-def record_validate(ctx, exe):
+def record_validate(ctx, exes):
     thorough = ctx.tier == "thorough"
     # (nexec, nthreads, maxops, nk) per recorder process
     shapes = [(16, 3, 200, 12), (16, 2, 200, 16), (16, 3, 120, 10), (10, 4, 200, 14)]
     if thorough:
         shapes = [(n * 5, t, m, k) for (n, t, m, k) in shapes] * 2 + [(40, 5, 200, 16), (60, 1, 200, 12)]
 
-    def rec(i, shape):
-        r = hrun.run_harness(exe, ["record", ctx.seed * 101 + i] + list(shape), timeout=900, env={"C10_WATCHDOG_S": "40"})
-        return i, shape, r
+    # every shape in both flavours (half of the executions each, different seeds)
+    runs = []
+    for i, (n, t, m, k) in enumerate(shapes):
+        runs.append((2 * i, "asan", (n - n // 2, t, m, k)))
+        runs.append((2 * i + 1, "plain", (n // 2, t, m, k)))
+
+    def rec(i, fl, shape, wd="40"):
+        r = hrun.run_harness(exes[fl], ["record", ctx.seed * 101 + i] + list(shape), timeout=900, env={"C10_WATCHDOG_S": wd})
+        return i, fl, shape, r
     lines = []
-    for i, shape, r in _par([(rec, i, s) for i, s in enumerate(shapes)], 4):
+    nex = {"asan": 0, "plain": 0}
+    for i, fl, shape, r in _par([(rec, i, fl, s) for i, fl, s in runs], 4):
+        exe = exes[fl]
         if r.rc != 0 or r.crashed:
             if r.rc == 5 or r.rc == 2:
-                raise Broken("recorder failed: " + r.err[-1500:])
+                raise Broken("recorder (%s) failed: " % fl + r.err[-1500:])
             last = max([j for j, ln in enumerate(r.lines) if '"e":"Cfg"' in ln] or [0])
             if r.rc == 3 or r.timed_out:
                 # watchdog: a thread never came back from a call.  Unless a hang / violation was already established,
@@ -408,6 +478,7 @@ def record_validate(ctx, exe):
                     r2 = hrun.run_harness(exe, ["record", ctx.seed * 101 + i] + list(shape), timeout=900, env={"C10_WATCHDOG_S": "120"})
                     if r2.rc == 0:
                         lines += r2.lines
+                        nex[fl] += shape[0]
                         continue
                 ev = []
                 for x in r.lines[last:][-60:]:
@@ -415,8 +486,8 @@ def record_validate(ctx, exe):
                         ev.append(json.loads(x))
                     except Exception:
                         pass
-                ctx.violation("real code HANGS in a concurrent random program (recorder args %s): a call never returns; last logged events attached" % (
-                    [ctx.seed * 101 + i] + list(shape)), {"kind": "record-hang", "args": [ctx.seed * 101 + i] + list(shape), "events_tail": ev})
+                ctx.violation("real code HANGS in a concurrent random program (recorder args %s, %s build): a call never returns; last logged events attached" % (
+                    [ctx.seed * 101 + i] + list(shape), fl), {"kind": "record-hang", "flavour": fl, "args": [ctx.seed * 101 + i] + list(shape), "events_tail": ev})
                 lines += r.lines[:last]
                 continue
             ev = []
@@ -425,12 +496,14 @@ def record_validate(ctx, exe):
                     ev.append(json.loads(x))
                 except Exception:
                     pass
-            ctx.violation("real code crashed (rc=%s) in a concurrent random program (recorder args %s): %s" % (
-                r.rc, [ctx.seed * 101 + i] + list(shape), _first_error(r.err)),
-                {"kind": "record-crash", "args": [ctx.seed * 101 + i] + list(shape), "events_tail": ev, "stderr": r.err[-4000:]})
+            ctx.violation("real code crashed (rc=%s) in a concurrent random program (recorder args %s, %s build): %s" % (
+                r.rc, [ctx.seed * 101 + i] + list(shape), fl, _first_error(r.err)),
+                {"kind": "record-crash", "flavour": fl, "args": [ctx.seed * 101 + i] + list(shape), "events_tail": ev, "stderr": r.err[-4000:]})
             lines += r.lines[:last]
         else:
             lines += r.lines
+            nex[fl] += shape[0]
+    ctx.extra["executions_recorded_by_flavour"] = nex
     res = tracex.validate(ctx, "ContextTrace", "ContextTrace.cfg", lines, chunk=12 if not thorough else 40, parallel=4,
                           timeout_s=900, tag="c10")
     ctx.extra["executions_validated"] = res["executions"]
@@ -450,7 +523,10 @@ def record_validate(ctx, exe):
     if not ctx.violations:      # (a violation already explains missing coverage)
         for need in ("deep", "ooo_deep", "dup_ooo", "foreign", "foreign_xthread", "scope_ooo", "shadow", "regrow", "unwind_to_small",
                      "drop_child_first", "drop_parent_first", "drop_middle", "drop_leaf_of_chain", "scope_exit_destroys",
-                     "clear_key", "clear_key_map"):
+                     "clear_key", "clear_key_map",
+                     # token objects with their own lifetime: destroyed while attached / on another thread, contexts dropped under a
+                     # live token, and stale tokens detached / destroyed after a NEW context was created and attached
+                     "dtor_detaches", "drop_with_token_alive", "stale_detach", "stale_dtor", "stale_token_freed_by_pop"):
             if agg.get(need, 0) == 0:
                 raise Broken("vacuity: no recorded execution shows condition %r" % need)
     for e in tracex.split_executions(lines)[:1]:
@@ -464,35 +540,38 @@ def record_validate(ctx, exe):
 def run(ctx):
     ctx.assumptions += [
         "exhaustive TLC results are for the stated small constants (<= 3 contexts / 2 keys / depth <= 7 / <= 3 threads); larger instances are sampled by replay and trace validation",
-        "a token is identified with the context it was created for (all the API allows to compare); Detach's boolean for an empty-context token on an empty stack is left open",
+        "token objects have their own lifetime (kept after Detach, detached again, destroyed at any time on any thread); a token stands for the context it was created for (all the API allows to compare) and contexts created later are different contexts; Detach's boolean for an empty-context token on an empty stack is left open",
+        "address reuse: behaviours are replayed / recorded in an ASan+UBSan build (no reuse) and a plain build where allocations made inside API calls come from LIFO free lists per 16-byte size class shared by all threads (immediate reuse), plus plain glibc for the replay",
         "SetValues maps have no duplicate keys; the empty string is not used as a key; a key bound to the empty ContextValue answers like an unbound key (HasKey is documented as 'GetValue is not empty') and hides older bindings",
         "concretisation tables of harness/c10_context.cc (4 key tables incl. prefix relatives of \"active_span\", 300-byte keys, embedded NULs; 4 value tables over int64/uint64/double/shared_ptr<SpanContext>/shared_ptr<Span>)",
         "trace validation: the merged log is ordered by a ticket taken when each call returned; the GetValue/HasKey table is re-read in full after every step and logged delta-encoded",
     ]
     ctx.extra["rule"] = ("states/transitions: TLC (exhaustive configs + generation + trace-validation runs); traces_validated = TLC behaviours "
-                         "replayed step by step on the real API + real concurrent executions accepted by ContextTrace.tla; distinct_nontrivial = "
+                         "replayed step by step on the real API (once per mode: asan, plain/lifo, plain/libc) + real concurrent executions accepted by ContextTrace.tla; distinct_nontrivial = "
                          "distinct TLC behaviours (sha1 of the step list) + recorded executions (distinct seeds)")
-    exe = build.harness("c10_context", ["c10_context.cc"], "asan", need_sdk=False)
-    log("C10 harness built %.0fs" % ctx.timer.s())
+    exes = dict(_par([(lambda fl=fl: (fl, build.harness("c10_context", ["c10_context.cc"], fl, need_sdk=False)),) for fl in ("asan", "plain")], 2))
+    exe = exes["asan"]
+    log("C10 harness built (asan + plain) %.0fs" % ctx.timer.s())
     jobs = [(lambda j=j: ("mc", j[0](*j[1:]))) for j in mc_jobs(ctx)] + [(lambda j=j: ("gen", j[0](*j[1:]))) for j in gen_jobs(ctx)]
     results = _par([(j,) for j in jobs], 6)      # model checking and generation are independent TLC runs: one pool
     mc_collect(ctx, [r for kind, r in results if kind == "mc"])
     behs = gen_collect(ctx, [r for kind, r in results if kind == "gen"])
     log("C10 model checking + generation done %.0fs (%d behaviours)" % (ctx.timer.s(), len(behs)))
     insts = concretise(ctx, behs)
-    replay_all(ctx, exe, insts)
+    replay_all(ctx, exes, insts)
     if not ctx.violations:       # (on a tree that already violates, the self-test behaviour itself may hang / crash)
         selftest(ctx, exe, insts)
     log("C10 replay done %.0fs" % ctx.timer.s())
-    record_validate(ctx, exe)
+    record_validate(ctx, exes)
 
 
 def replay(ctx, path):
     rep = json.load(open(path))["replay"]
-    exe = build.harness("c10_context", ["c10_context.cc"], "asan", need_sdk=False)
+    mode = rep.get("mode") or ["asan", None]
+    exe = build.harness("c10_context", ["c10_context.cc"], mode[0], need_sdk=False)
     if rep.get("kind") == "replay":
         b = dict(rep["behaviour"], id=0)
-        res, crashes = run_replay(ctx, exe, [b], "re")
+        res, crashes = run_replay(ctx, exe, [b], "re", alloc=mode[1])
         g = res.get(0, {})
         ctx.traces += 1
         for c in crashes:
